@@ -250,6 +250,7 @@ func execC15(w *c15W, x *Exec) *Outcome {
 		rows, closed, writeAccepted = nil, false, nil
 		return x.Bubble(cfg, func(s *simrt.Sim) func() bool {
 			simrt.Go("client:gripper", func() {
+				cachedTables := 0
 				drivers := map[string]gripper.Driver{}
 				for _, t := range w.VTables {
 					data := map[string]*gripper.BaseRow{}
@@ -257,7 +258,10 @@ func execC15(w *c15W, x *Exec) *Outcome {
 						data[r.ID] = &gripper.BaseRow{Key: r.ID, Value: model.DeepCopyMap(r.Data)}
 					}
 					var d gripper.Driver = gripper.NewDriverPreload(data, map[string]string{})
-					_ = t.Cached // gripper.DriverCache lacks GetFieldLinks at this commit: it does not implement gripper.Driver and cannot be served
+					if t.Cached {
+						d = cachedDriver{gripper.NewDriverCache(d)}
+						cachedTables++
+					}
 					drivers[t.Name] = d
 				}
 				for _, t := range w.ETables {
@@ -266,8 +270,14 @@ func execC15(w *c15W, x *Exec) *Outcome {
 						data[r.ID] = &gripper.BaseRow{Key: r.ID, Value: model.DeepCopyMap(r.Data)}
 					}
 					var d gripper.Driver = gripper.NewDriverPreload(data, map[string]string{})
-					_ = t.Cached // gripper.DriverCache lacks GetFieldLinks at this commit: it does not implement gripper.Driver and cannot be served
+					if t.Cached {
+						d = cachedDriver{gripper.NewDriverCache(d)}
+						cachedTables++
+					}
 					drivers[t.Name] = d
+				}
+				if cachedTables > 0 {
+					simrt.Probe("tables served through DriverCache")
 				}
 				srv := gripper.NewSimpleTableServer(drivers)
 				cl := &simnet.Client{Server: srv, Stats: netStats}
@@ -408,3 +418,11 @@ func shapeOfTables(w *c15W) string {
 	}
 	return "all-links-resolve"
 }
+
+// cachedDriver puts the real gripper.DriverCache behind the table servicer.
+// At this commit DriverCache lacks GetFieldLinks (so it does not implement
+// gripper.Driver and nothing in the repository instantiates it); the adapter
+// adds that one method by delegation and nothing else.
+type cachedDriver struct{ *gripper.DriverCache }
+
+func (c cachedDriver) GetFieldLinks() (map[string]string, error) { return c.Driver.GetFieldLinks() }
